@@ -5,7 +5,7 @@
     [orders_pos] = every stored bond order > 0;  [geq_sel G' G] = same atoms with equal element, aromatic,
     hcount, charge and equal bond maps;  [amap_id] = atom_map is the node id;  orders are half-units. *)
 From Coq Require Import List NArith ZArith Bool.
-From SK Require Import lib.LGraph lib.C01_GraphLemmas model.C01_Model proof.C01_Proof.
+From SK Require Import lib.LGraph lib.C01_GraphLemmas model.C01_Model model.C01_Opts proof.C01_Proof proof.C01_OptsProof.
 Local Open Scope Z_scope.
 
 (** 1. decompose (construct (G, H)) = (G, H) *)
@@ -61,3 +61,82 @@ Theorem C01_rsmi_partial : forall (rsmi : Type) (parse : rsmi -> option (mgraph 
   exists G' H', parse s = Some (G', H') /\ geq_sel G' G /\ geq_sel H' H.
 Proof. exact rsmi_partial. Qed.
 Print Assumptions C01_rsmi_partial.
+
+(** ------------------------------------------------------------------------------------------------
+    OPTIONS of ITSConstruction.construct / ITSGraph (model/C01_Opts.v): [o_ia] = ignore_aromaticity,
+    [o_bal] = balance_its, [o_dflt] = resolved attributes_defaults; [its_construct_o] = store=False,
+    [its_construct_S] = store=True (top-level attributes are (G, H) pairs).  [its_construct] is the instance
+    [its_construct_o default_opts] (proof/C01_OptsProof.v construct_default, by computation). *)
+
+(** 6. the round trip holds for EVERY option value and both store modes (the order pair stays exact under
+       ignore_aromaticity; only standard_order is zeroed) *)
+Theorem C01_roundtrip_opts : forall (o : copts) (G H : mgraph),
+  wf G -> wf H -> same_nodes G H -> orders_pos G -> orders_pos H ->
+  let D := its_decompose (its_construct_o o G H) in
+  let DS := its_decompose_S (its_construct_S o G H) in
+  (geq_sel (fst D) G /\ amap_id (fst D) /\ geq_sel (snd D) H /\ amap_id (snd D)) /\
+  (geq_sel (fst DS) G /\ amap_id (fst DS) /\ geq_sel (snd DS) H /\ amap_id (snd DS)).
+Proof. exact roundtrip_opts. Qed.
+Print Assumptions C01_roundtrip_opts.
+
+(** 7. union for every option value: node set; typesGH = the two side tuples (with the resolved defaults);
+       top-level attributes = the G-side values (store=False) or the (G, H) pairs (store=True); atom_map is
+       inherited from the base graph chosen by balance_its, else from the other graph; every bond carries
+       (order_G or 0, order_H or 0) and standard_order = [std_of ignore_aromaticity]; well-formed *)
+Theorem C01_union_opts : forall (o : copts) (G H : mgraph), wf G -> wf H ->
+  let I := its_construct_o o G H in
+  let J := its_construct_S o G H in
+  let base := if base_is_G_o o G H then G else H in
+  let other := if base_is_G_o o G H then H else G in
+  (forall n, (In n (node_ids I) <-> In n (node_ids G) \/ In n (node_ids H)) /\
+             (In n (node_ids J) <-> In n (node_ids G) \/ In n (node_ids H))) /\
+  (forall n a, label I n = Some a ->
+     i_G a = side_tuple_o o G n /\ i_H a = side_tuple_o o H n /\
+     i_el a = a_el (i_G a) /\ i_ch a = a_ch (i_G a) /\
+     i_extra a = Some (a_arom (i_G a), a_hc (i_G a), a_nb (i_G a)) /\
+     ((exists b, label base n = Some b /\ i_amap a = g_amap b) \/
+      (label base n = None /\ exists b, label other n = Some b /\ i_amap a = g_amap b))) /\
+  (forall n a, label J n = Some a ->
+     s_G a = side_tuple_o o G n /\ s_H a = side_tuple_o o H n /\
+     s_el a = (a_el (s_G a), a_el (s_H a)) /\ s_arom a = (a_arom (s_G a), a_arom (s_H a)) /\
+     s_hc a = (a_hc (s_G a), a_hc (s_H a)) /\ s_ch a = (a_ch (s_G a), a_ch (s_H a)) /\
+     s_nb a = (a_nb (s_G a), a_nb (s_H a)) /\
+     ((exists b, label base n = Some b /\ s_amap a = g_amap b) \/
+      (label base n = None /\ exists b, label other n = Some b /\ s_amap a = g_amap b))) /\
+  (forall u v a b s, (adj I u v = Some (IE a b s) <->
+      a = order_in G u v /\ b = order_in H u v /\ (adj G u v <> None \/ adj H u v <> None) /\ s = std_of (o_ia o) a b)) /\
+  (forall u v, adj J u v = adj I u v) /\
+  std_consistent_o (o_ia o) I /\ std_consistent_o (o_ia o) J /\ wf I /\ wf J.
+Proof. exact union_opts. Qed.
+Print Assumptions C01_union_opts.
+
+(** 8. what ignore_aromaticity does to C02's hypothesis [std_consistent]: it holds whenever the option is off;
+       in general standard_order is zero exactly on the bonds whose orders are equal or (option on) differ by less
+       than one unit, and wherever it is non-zero it is the difference.  (C02_rc_edges needs std_consistent;
+       C02_rc_nodes, _idem, _equivariant, _ctx_spec, _ctx_chain do not.) *)
+Theorem C01_std_opts : forall (o : copts) (G H : mgraph),
+  (o_ia o = false -> std_consistent (its_construct_o o G H)) /\
+  (forall u v x, In (u, v, x) (gedges (its_construct_o o G H)) ->
+     (e_std x = 0 <-> e_G x = e_H x \/ (o_ia o = true /\ Z.abs (e_G x - e_H x) < 2)) /\
+     (e_std x <> 0 -> e_std x = e_G x - e_H x)).
+Proof. exact std_opts. Qed.
+Print Assumptions C01_std_opts.
+
+(** 9. with ignore_aromaticity=True the ITS is in general NOT std_consistent (aromatic bond 1.5 -> single bond:
+       order pair (1.5, 1), standard_order 0), although the round trip (theorem 6) still holds *)
+Theorem C01_ia_std_refuted :
+  exists G H : mgraph, wf G /\ wf H /\ same_nodes G H /\ orders_pos G /\ orders_pos H /\
+    ~ std_consistent (its_construct_o (CO true false dflt_nattr) G H) /\
+    adj (its_construct_o (CO true false dflt_nattr) G H) 1%N 2%N = Some (IE 3 2 0).
+Proof. exact ia_not_std_consistent. Qed.
+Print Assumptions C01_ia_std_refuted.
+
+(** 10. equivariance for every option value and both store modes *)
+Theorem C01_equivariant_opts : forall f : N -> N, (forall a b, f a = f b -> a = b) ->
+  forall (o : copts) (G H : mgraph) (J : itsS),
+  its_construct_o o (relabel f G) (relabel f H) = relabel f (its_construct_o o G H) /\
+  its_construct_S o (relabel f G) (relabel f H) = relabel f (its_construct_S o G H) /\
+  its_decompose_S (relabel f J) =
+    (set_amap (relabel f (fst (its_decompose_S J))), set_amap (relabel f (snd (its_decompose_S J)))).
+Proof. exact equivariant_opts. Qed.
+Print Assumptions C01_equivariant_opts.
